@@ -137,6 +137,18 @@ func skolemGoal(goal string, id int) (newGoal string, sks []sexprBinder) {
 			ae := sexprEnd(in, 0)
 			ante, cons := in[:ae], strings.TrimSpace(in[ae:])
 			if sexprEnd(cons, 0) == len(cons) {
+				// (=> (exists v. B) C) is (forall v. (=> B C)) when v is not free in C (bound names are unique)
+				if strings.HasPrefix(ante, "(exists (") {
+					if bs, body, ok := splitForall("(forall" + ante[len("(exists"):]); ok {
+						for _, b := range bs {
+							sk := fmt.Sprintf("|gsk?%d_%d|", id, n)
+							n++
+							body = strings.ReplaceAll(body, b.name, sk)
+							sks = append(sks, sexprBinder{sk, b.sort})
+						}
+						ante = body
+					}
+				}
 				return "(=> " + ante + " " + rec(cons, depth+1) + ")"
 			}
 		}
